@@ -58,8 +58,10 @@ def match(source: str, pos: int) -> MatchResult:
             pending_property[0] = alloc_range(pool, start, end, delimiter)
         elif token_type == TokenType.PropertyValue:
             pending = pending_property[0]
-            if pending and pending[0] < pos < end:
-                result[0] = MatchResult('property', pending[0], delimiter + 1 if delimiter != -1 else end, start, end)
+            # Property spans up to and including its terminating delimiter
+            prop_end = delimiter + 1 if delimiter != -1 else end
+            if pending and pending[0] < pos < prop_end:
+                result[0] = MatchResult('property', pending[0], prop_end, start, end)
                 return False
             release_pending()
 
@@ -102,10 +104,12 @@ def balanced_outward(source: str, pos: int) -> list:
             prop[0] = alloc_range(pool, start, end, delimiter)
         elif token_type == TokenType.PropertyValue:
             p = prop[0]
-            if p and p[0] < pos < max(delimiter, end):
+            # Property spans up to and including its terminating delimiter
+            prop_end = delimiter + 1 if delimiter != -1 else end
+            if p and p[0] < pos < prop_end:
                 # Push full token and value range
                 push(result, (start, end))
-                push(result, (p[0], delimiter + 1 if delimiter != -1 else end))
+                push(result, (p[0], prop_end))
 
         if token_type != TokenType.PropertyName and prop[0]:
             release_range(pool, prop[0])
